@@ -10,6 +10,7 @@ EXTENDS Persistent, Json
 CONSTANTS Depth, MaxChanges, MaxSaves, MaxFaults, MaxStarts, MaxCorrupt, MaxOther,
           FirstCfgs,     \* how many parameters the first configuration may mention (set of cardinalities)
           StartCfgs,     \* ... a restart configuration may mention
+          PostReload,    \* TRUE: one loadParameters() may follow the last start (before the pending writes)
           CfgKinds,      \* subset of {"value", "default"}: what a configuration may give for a parameter
           Vias           \* subset of {"set", "write", "read"}: how a value changes (driver, client, hardware)
 
@@ -68,6 +69,9 @@ GStart(cfg, cdef, f, does) ==
     /\ LET nv == Loaded(cfg, cdef, disk.target)
            bel == BelievedAfterLoad(disk.target)
        IN /\ (bel = nv => does)                  \* one branch only when there is nothing to save
+          \* the start-up save may only be left out when the file left on disk cannot do harm: reloading it
+          \* (loadParameters) must not bring stale stored values back over the ones just established
+          /\ (~does => ReloadHarmless(FileEnt(disk.target), nv))
           /\ Outcome(does, nv, bel, f, Pending(nv, kind), Uninit(cfg, cdef, disk.target, kind),
                      Factory(cfg, cdef), Default, FALSE)
     /\ UNCHANGED <<kind, pc, sv>>
@@ -109,12 +113,15 @@ GSave(f, does) ==
 
 (* loadParameters(); restored values of parameters with a write method are written, which may save *)
 GReload(does) ==
-    /\ alive /\ wd = NoSnap /\ cnt.oth < MaxOther
+    /\ alive
+    /\ IF cnt.st < MaxStarts THEN cnt.oth < MaxOther
+       ELSE PostReload /\ hist[Len(hist)].act = "start"      \* right after the last start
     /\ LET E == FileEnt(disk.target)
            S == Reloaded(disk.target, val)
            bel == BelievedAfterLoad(disk.target)
-       IN /\ (does => bel # S /\ \E p \in kind.auto \cap kind.hw : E[p] \in Vals)
-          /\ Outcome(does, S, bel, NoFault, wd, err \ {p \in Params : E[p] \in Vals}, init, fval, FALSE)
+       IN /\ (does => bel # S /\ \E p \in kind.auto \cap kind.hw : E[p] \in Vals \/ wd[p] # NoVal)
+          /\ Outcome(does, S, bel, NoFault, NoSnap,
+                     (err \ {p \in Params : E[p] \in Vals}) \ {p \in kind.hw : wd[p] # NoVal}, init, fval, FALSE)
     /\ UNCHANGED <<kind, pc, sv>>
     /\ cnt' = [cnt EXCEPT !.oth = @ + 1]
     /\ Log([act |-> "reload", alt |-> IF does THEN "" ELSE "nosave"])
@@ -142,7 +149,9 @@ GCorrupt(c, p) ==
 
 GInit == Init /\ hist = <<>> /\ cnt = [chg |-> 0, sav |-> 0, flt |-> 0, st |-> 0, cor |-> 0, oth |-> 0]
 Running == cnt.st < MaxStarts \/ cnt.st = 0
-GNext == Running /\
+GNext ==
+  \/ ~Running /\ \E does \in BOOLEAN : GReload(does)
+  \/ Running /\
     \/ \E cc \in CfgPairs, f \in FaultSet({"crash"}), does \in BOOLEAN : GStart(cc[1], cc[2], f, does)
     \/ \E does \in BOOLEAN : GWriteInit(does)
     \/ \E p \in Params, v \in Vals, via \in Vias, f \in FaultSet({"crash", "ioerror"}) : GChange(p, v, via, f)
